@@ -23,7 +23,8 @@ FATAL = ['handler', 'calc', 'cb_handler', 'abort', 'ctrl_abort', 'ctrl_shutdown'
 BENIGN = ['unknown', 'noparam', 'badsource']
 RULE = ("Case = entry point (edzed.run with a supporting task ending by return/exception immediately or 1 s "
         "after its last action; or run_forever + shutdown) x optional abort() before the start x optional "
-        "monitored block task failing at an off-grid instant x timeline of 1-4 instants with 1-3 actions each "
+        "monitored block task failing at an off-grid instant x optional monitored block task sending an event to a "
+        "failing handler x timeline of 1-4 instants with 1-3 actions each "
         "from {failing event handler (caller catches), calc_output error, abort(exc), 'abort' control event, "
         "'shutdown' control event, abort(CancelledError), unknown event type, missing parameter, non-string "
         "source}; the circuit also contains blocks whose init_async, _restore_state, stop and stop_async fail. "
@@ -70,6 +71,17 @@ class MT(edzed.AddonMainTask, edzed.SBlock):
         raise E2('monitored task failed')
 
 
+class MTS(edzed.AddonMainTask, edzed.SBlock):
+    """a monitored block task that sends an event to a failing handler and does not catch"""
+    def init_regular(self):
+        self.set_output(0)
+
+    async def _maintask(self):
+        await asyncio.sleep(self.x_at)
+        self.x_event.send(self, value=1)        # raises: handled by the task monitor
+        await asyncio.sleep(10 ** 6)
+
+
 class BenignInit(edzed.AddonPersistence, edzed.AddonAsync, edzed.SBlock):
     """asynchronous initialisation and state restoration fail; initdef saves the day"""
     async def init_async(self):
@@ -104,6 +116,7 @@ def cases(draw):
             'sup_end': draw(st.sampled_from(['return0', 'return1', 'fail0', 'fail1'])),
             'abort_before_start': draw(st.sampled_from([None] * 8 + ['E3', 'cancel'])),
             'mt_at': draw(st.sampled_from([None, None, 0.25, 1.25, 2.25, 3.25])),
+            'mts_at': draw(st.sampled_from([None, None, None, 0.75, 1.75, 2.75])),
             'groups': groups}
 
 
@@ -114,7 +127,7 @@ def strategy(tier):
 ERR_OF = {'handler': ('EdzedCircuitError', 'E1'), 'abort': ('E3', None),
           'ctrl_abort': ('EdzedCircuitError', None), 'ctrl_shutdown': ('CancelledError', None),
           'cancel': ('CancelledError', None), 'mt': ('E2', None), 'calc': ('ValueError', None),
-          'cb_handler': ('EdzedCircuitError', 'E1')}
+          'cb_handler': ('EdzedCircuitError', 'E1'), 'mts': ('EdzedCircuitError', 'E1')}
 
 
 def model(case):
@@ -127,6 +140,8 @@ def model(case):
     end = last_t + 0.5 if case['entry'] == 'rf' else last_t + (1 if case['sup_end'].endswith('1') else 0)
     if case['mt_at'] is not None and case['mt_at'] < end:
         timeline.append((case['mt_at'], ['mt']))     # otherwise the run is over before it fails
+    if case.get('mts_at') is not None and case['mts_at'] < end:
+        timeline.append((case['mts_at'], ['mts']))
     timeline.sort(key=lambda x: x[0])
     err = None
     at = None
@@ -174,6 +189,8 @@ def execute(case):
         circuit.set_persistent_data(storage)
         if case['mt_at'] is not None:
             MT('mt', x_at=case['mt_at'])
+        if case.get('mts_at') is not None:
+            MTS('mts', x_at=case['mts_at'], x_event=edzed.Event(b2, 'boom'))
         if case['abort_before_start'] == 'E3':
             circuit.abort(E3('aborted before start'))
         elif case['abort_before_start'] == 'cancel':
@@ -322,7 +339,8 @@ def execute(case):
                 break
             action, r, ready, err = obs['ready_after'][k]
             k += 1
-            passed_mt = case['mt_at'] is not None and case['mt_at'] < g['t']
+            passed_mt = (case['mt_at'] is not None and case['mt_at'] < g['t']) or (
+                case.get('mts_at') is not None and case['mts_at'] < g['t'])
             if seen_fatal or passed_mt:
                 continue
             if a in BENIGN:
